@@ -10,6 +10,7 @@ package pslice
 import (
 	"cmp"
 	"fmt"
+	"math"
 	"slices"
 	"sort"
 
@@ -975,6 +976,9 @@ func checkUtil(c UtilCase) (in info, msg string) {
 		in.setIf(!head, c17FnTail)
 		if k < 0 {
 			k = -k // only n >= 0 is a documented argument
+			if k < 0 {
+				k = math.MaxInt
+			}
 		}
 		call = fmt.Sprintf("%s(len %d, n=%d, spare capacity %d)", c.Fn, n, k, spare)
 		var got []int
